@@ -54,7 +54,7 @@ func init() {
 		Rule:    "one live regnet node per shard (mode quiet / real netsync event handler subscribed / forced reader inside block-disconnected events); a case is one (step, probe) pair: step = mined block with 0-3 signed transfers (with or without a stored confirm), mempool submission, fork of depth 1-3 that wins (re-mining some detached txs at other heights), lookup burst, NetServer.pushBlockMsg/pushConfirmedBlockMsg; probe = txid / synthetic tx naming 1-4 outpoints (recent, losing-branch-only, out-of-range, unknown) / block hash / send sequence over <=4 hashes x {confirmed,unconfirmed} interleaved with other commands. non-trivial = the probe names an object the node has stored at some time (so the cached and the uncached path can both answer)",
 		Shards:  func(tier string) int { return 8 },
 		Run:     runC15,
-		Require: []string{"a_ref_lookups", "a_ref_hits", "a_ref_misses", "a_ref_evictions", "a_tx_lookups", "a_entries_cached_before_reorg_for_rolled_back_txs", "a_rolledback_probes", "b_fetch_lookups", "b_hits", "b_misses", "c_block_lookups", "c_hits", "c_confirmed_blocks_checked", "c_unconfirmed_blocks_checked", "c_evictions", "d_block_sends", "d_hits", "d_evictions", "reorgs", "chain_fork_scenarios", "c_push_block_msgs", "conc_rounds", "conc_reader_ops", "honest_blocks_accepted", "audits", "s_pushes", "s_pops", "s_zero_output_probes_after_rollback", "s_zero_input_probes_after_rollback"},
+		Require: []string{"a_ref_lookups", "a_ref_hits", "a_ref_misses", "a_ref_evictions", "a_tx_lookups", "a_entries_cached_before_reorg_for_rolled_back_txs", "a_rolledback_probes", "b_fetch_lookups", "b_hits", "b_misses", "c_block_lookups", "c_hits", "c_confirmed_blocks_checked", "c_unconfirmed_blocks_checked", "c_evictions", "d_block_sends", "d_hits", "d_evictions", "reorgs", "chain_fork_scenarios", "c_push_block_msgs", "conc_rounds", "conc_reader_ops", "honest_blocks_accepted", "audits", "s_pushes", "s_pops", "s_zero_output_probes_after_rollback", "s_zero_input_probes_after_rollback", "txcache_restored_default_profile", "txcache_restored_memory_first", "restored_cache_disconnects_checked", "restored_cache_lookups", "restored_cache_hits", "restored_cache_rolled_back_probes", "cp_branches_replaced"},
 		Assumptions: []string{
 			"the uncached answer is the node's own database read without the cache lookup (tx index + block region, raw FetchBlock + decode, Message.Serialize); that path is the specification here",
 			"regnet proof-of-work era: ProcessBlock stores a handed-in confirm without validating it, so confirmed and unconfirmed stored blocks can be produced without DPoS infrastructure; confirms are fabricated",
@@ -152,6 +152,9 @@ func runC15(c *kit.Ctx) {
 	}
 	// ---- phase 5: store level, tx shapes the pow-era context checks do not admit ----
 	e.storeLevel(c.Rand("c15-store"))
+
+	// ---- phase 6: tx-cache checkpoint restore under both node profiles ----
+	e.checkpointRestore()
 	e.audit(r, "final", 40)
 }
 
